@@ -17,7 +17,7 @@ func findMissingRules(c *Ctx) {
 	R := c.R
 	R.Rule("R10a", "E2", "found => nil-ed only on a sized hit: findMissingLocalCAS clears a digest only under (entry found and size not mismatching) or the empty-digest test; containsWorker clears it only when the backend answered true with a size that does not mismatch the requested one", 4)
 	R.Rule("R10b", "E2", "oversize is never asked of the backend: the send on containsQueue is dominated by SizeBytes <= maxProxyBlobSize", 1)
-	R.Rule("R10c", "E5", "the whole list is processed: both slice expressions of the batching loop use the same bound, the loop runs while len(remaining) > 0", 2)
+	R.Rule("R10c", "E3", "the whole list is processed: the batching loop starts from the whole request, runs while the remaining list is not empty, takes rest[:b] and keeps rest[b:] with one bound, and is left only by its condition or by an error return", 4)
 	R.Rule("R10d", "E2+E5", "order-preserving compaction: filterNonNil is a single forward loop that copies each non-nil element unchanged to a write index that never passes the read index, and returns blobs[:count]", 1)
 	R.Rule("R10g", "E3", "the response is the filtered request slice: FindMissingBlobs validates every requested digest, passes req.BlobDigests to the cache and returns its result; FindMissingCasBlobs returns filterNonNil(blobs) after the internal search", 3)
 
@@ -142,29 +142,111 @@ func findMissingRules(c *Ctx) {
 		x := NewExec(c.P.FlowOf(fi), base)
 		x.Run(newSt())
 		R.Check(n > 0, "R10b", c.Cfg+"findMissingCasBlobsInternal:send-found", "", "the queueing send was analysed", "not found")
-		// R10c
-		var sl []string
-		loopOK := false
+		// R10c: the batching loop `for len(rest) > 0` over a local slice that starts as the
+		// parameter; inside it a batch rest[:b] is taken and rest[b:] kept with the same b (or the
+		// whole rest is taken and rest set to nil); the loop is left only by its condition or by an
+		// error return.
+		info := fi.Pkg.TypesInfo
+		var loop *ast.ForStmt
+		var restObj types.Object
 		ast.Inspect(fi.Decl.Body, func(m ast.Node) bool {
-			if f, ok := m.(*ast.ForStmt); ok && f.Cond != nil && strings.ReplaceAll(exprStr(f.Cond), " ", "") == "len(remaining)>0" && f.Init == nil && f.Post == nil {
-				loopOK = true
-			}
-			if as, ok := m.(*ast.AssignStmt); ok && len(as.Rhs) == 1 {
-				if se, ok := as.Rhs[0].(*ast.SliceExpr); ok && exprStr(se.X) == "remaining" {
-					lo, hi := "", ""
-					if se.Low != nil {
-						lo = exprStr(se.Low)
+			if f, ok := m.(*ast.ForStmt); ok && loop == nil && f.Cond != nil && f.Init == nil && f.Post == nil {
+				if be, ok := ast.Unparen(f.Cond).(*ast.BinaryExpr); ok && be.Op == token.GTR {
+					if k, isC := constInt(info, be.Y); isC && k == 0 {
+						if call, ok := ast.Unparen(be.X).(*ast.CallExpr); ok && exprStr(call.Fun) == "len" && len(call.Args) == 1 {
+							if o := identObj(info, call.Args[0]); o != nil {
+								loop, restObj = f, o
+							}
+						}
 					}
-					if se.High != nil {
-						hi = exprStr(se.High)
-					}
-					sl = append(sl, exprStr(as.Lhs[0])+"=["+lo+":"+hi+"]")
 				}
 			}
 			return true
 		})
-		R.Check(loopOK, "R10c", c.Cfg+"findMissingCasBlobsInternal:loop", c.P.Pos(fi.Decl.Pos()), "the batching loop runs while len(remaining) > 0", "loop condition not found")
-		R.Check(strings.Join(sl, " ") == "chunk=[:batchSize] remaining=[batchSize:]", "R10c", c.Cfg+"findMissingCasBlobsInternal:slices", c.P.Pos(fi.Decl.Pos()), "the chunk taken and the remainder kept use the same bound (no digest skipped or processed twice)", "slice expressions are "+strings.Join(sl, " "))
+		R.Check(loop != nil, "R10c", c.Cfg+"findMissingCasBlobsInternal:loop", c.P.Pos(fi.Decl.Pos()), "the batching loop runs while the remaining list is not empty (len(rest) > 0)", "no loop of the form `for len(x) > 0` found")
+		if loop != nil {
+			// rest starts as the whole request
+			startsWhole := false
+			var blobsParam types.Object
+			for _, f := range fi.Decl.Type.Params.List {
+				for _, nm := range f.Names {
+					if _, ok := info.TypeOf(nm).Underlying().(*types.Slice); ok {
+						blobsParam = info.Defs[nm]
+					}
+				}
+			}
+			ast.Inspect(fi.Decl.Body, func(m ast.Node) bool {
+				if as, ok := m.(*ast.AssignStmt); ok && as.Pos() < loop.Pos() && len(as.Lhs) == 1 && len(as.Rhs) == 1 {
+					if identObj(info, as.Lhs[0]) == restObj && blobsParam != nil && identObj(info, as.Rhs[0]) == blobsParam {
+						startsWhole = true
+					}
+				}
+				return true
+			})
+			R.Check(startsWhole, "R10c", c.Cfg+"findMissingCasBlobsInternal:starts-whole", c.P.Pos(loop.Pos()), "the remaining list starts as the whole request", "the list the loop consumes is not initialised from the digest slice parameter")
+			var takes, keeps []string
+			whole := false
+			early := ""
+			var walk func(n ast.Node, depthLoop bool)
+			ast.Inspect(loop.Body, func(m ast.Node) bool {
+				switch v := m.(type) {
+				case *ast.FuncLit:
+					return false
+				case *ast.AssignStmt:
+					for i, rhs := range v.Rhs {
+						if i >= len(v.Lhs) {
+							break
+						}
+						if se, ok := ast.Unparen(rhs).(*ast.SliceExpr); ok && identObj(info, se.X) == restObj {
+							if se.Low == nil && se.High != nil {
+								takes = append(takes, exprStr(se.High))
+							}
+							if se.Low != nil && se.High == nil && identObj(info, v.Lhs[i]) == restObj {
+								keeps = append(keeps, exprStr(se.Low))
+							}
+						}
+						if identObj(info, v.Lhs[i]) == restObj && isNilIdent(info, rhs) {
+							whole = true
+						}
+					}
+				case *ast.ReturnStmt:
+					if len(v.Results) == 1 && isNilIdent(info, v.Results[0]) {
+						early = "return nil at " + c.P.Pos(v.Pos())
+					}
+				}
+				return true
+			})
+			_ = walk
+			// unlabeled break that leaves the batching loop (not one inside a nested for/switch/select)
+			var findBreak func(list []ast.Stmt)
+			findBreak = func(list []ast.Stmt) {
+				for _, st := range list {
+					switch v := st.(type) {
+					case *ast.BranchStmt:
+						if v.Tok == token.BREAK && v.Label == nil {
+							early = "break at " + c.P.Pos(v.Pos())
+						}
+					case *ast.IfStmt:
+						findBreak(v.Body.List)
+						if eb, ok := v.Else.(*ast.BlockStmt); ok {
+							findBreak(eb.List)
+						} else if ei, ok := v.Else.(*ast.IfStmt); ok {
+							findBreak([]ast.Stmt{ei})
+						}
+					case *ast.BlockStmt:
+						findBreak(v.List)
+					case *ast.LabeledStmt:
+						findBreak([]ast.Stmt{v.Stmt})
+					}
+				}
+			}
+			findBreak(loop.Body.List)
+			R.Check(len(takes) == 1 && len(keeps) == 1 && takes[0] == keeps[0] && whole, "R10c", c.Cfg+"findMissingCasBlobsInternal:slices", c.P.Pos(loop.Pos()),
+				"the batch taken (rest[:b]) and the remainder kept (rest[b:]) use the same bound, or the whole rest is taken and the remainder cleared (no digest skipped or processed twice)",
+				fmt.Sprintf("batch bounds %v, remainder bounds %v, whole-rest branch %v", takes, keeps, whole))
+			R.Check(early == "", "R10c", c.Cfg+"findMissingCasBlobsInternal:no-early-exit", c.P.Pos(loop.Pos()), "the batching loop is left only when the list is exhausted or with an error",
+				"the loop can be left early ("+early+"): later batches are never examined, their digests are reported missing by FindMissingBlobs and taken as present by the ActionResult dependency check")
+		}
 	}
 	if ff := c.P.MustFunc(R, "R10d", "disk.filterNonNil"); ff != nil {
 		ok := false
